@@ -72,6 +72,13 @@ CHECKS["C19"] = dict(
     note="Trusted: logical clock (dyadic steps keep the f64 implementation exact), the integer model. Depth 8 quick / 10 thorough. The concurrent clause is decided by schedmc (C19 concurrent section) once registered.",
 )
 
+CHECKS["C07"] = dict(
+    engine="seqmc", category="model_checking", design_ref="DESIGN.md 3.7",
+    technique="exhaustive search/write histories on the real TieredEngine with a fresh-top-k oracle on every cache hit; exhaustive (query, inserted vector, boundary) lattice for the pruning bound; exhaustive k and scope pairs",
+    text="(1) all 12^depth histories per metric x dimension {2,33,40} mixing scoped searches with inserts, overwrites that move a document, a new closer document, delete, metadata update, bulk load and drain: every answer whose path is CacheHit must be a valid fresh top-k of the reference map (no deleted document, no pre-overwrite distance, no omitted strictly closer document). (2) for every pair of a {0,1,32,33}-supported lattice in dimension 40 x metric x five cached boundaries straddling the exact distance, an entry the write can affect must be removed by invalidate_for_insert. (3) every ordered k pair and scope pair at three similarity thresholds: never served for a larger k or another scope. (4) store-after-invalidate race: schedmc section.",
+    note="Trusted: f64 brute force, similarity threshold 1.0 in part 1 (similarity hits are approximate by design). Depth 4 quick / 5 thorough.",
+)
+
 # properties not claimed (yet): id -> reason
 NOT_APPLICABLE = {}
 
